@@ -134,6 +134,8 @@ type Random struct {
 	// Burst: the named process stays parked until step At, then runs alone until it blocks or ends
 	// (Close / Disconnect issued at a chosen gate of the others and completed without interference).
 	Burst *Burst `json:"burst,omitempty"`
+	// InIDBase: the broker numbers its publications from here (collisions with the client's own identifiers)
+	InIDBase int `json:"inidbase"`
 	// Plain: stay within the vocabulary of the specification (whole reads; write faults are a reset, an expiry without
 	// a byte, or an expiry after one byte) and record the client's projection after every step (code -> model validation)
 	Plain bool `json:"plain"`
@@ -181,6 +183,8 @@ type Exec struct {
 	gen                  int
 	mismatches, lastWarn int
 	raced                bool
+	stale                map[string]bool          // goroutines of stopped incarnations that were not parked at a gate then
+	leftIn               []Inbound                // inbound publications of the behaviour that were not reached (divergence)
 	quits                map[string]chan struct{} // open quit channels of mode "later", by process
 	mu                   sync.Mutex
 	exchs                []*exch
@@ -339,6 +343,11 @@ func Run(b *Behaviour) (events []sim.Ev) {
 		x.emit(e)
 	}
 	x.W.S.OnExit = func(name string) { x.emit(sim.Ev{"e": "exit", "p": name}) }
+	x.W.S.IsStale = func(goid int64) bool {
+		x.mu.Lock()
+		defer x.mu.Unlock()
+		return x.stale[fmt.Sprintf("goroutine %d", goid)]
+	}
 	x.W.S.OnPass = func(g *sched.Gate) {
 		// in free mode only the hook sites the monitor reads as observation points are recorded
 		if g.Site == "lw.got" || g.Site == "lw.wait" {
@@ -426,7 +435,13 @@ func Run(b *Behaviour) (events []sim.Ev) {
 	if len(b.Cfg.Seed) > 0 {
 		// in the order of their storage sequence numbers, as the earlier incarnation wrote them
 		seed := append([]SeedRec(nil), b.Cfg.Seed...)
-		sort.Slice(seed, func(i, j int) bool { return seed[i].Sseq < seed[j].Sseq })
+		// (a transfer at the PUBREL stage was accepted before those still at the PUBLISH stage)
+		sort.Slice(seed, func(i, j int) bool {
+			if (seed[i].Kind == "REL") != (seed[j].Kind == "REL") {
+				return seed[i].Kind == "REL"
+			}
+			return seed[i].Sseq < seed[j].Sseq
+		})
 		put := func(key uint, pkt []byte, sseq uint64) {
 			var val []byte
 			for _, part := range mqtt.VerifEncodeValue(net.Buffers{pkt}, sseq) {
@@ -467,11 +482,38 @@ func Run(b *Behaviour) (events []sim.Ev) {
 	}
 	for i := range b.Steps {
 		if !x.step(i, &b.Steps[i]) {
+			// the behaviour is left here; what the broker had still to publish is published in the epilogue, so that a
+			// wrong turn of the client meets the rest of the scenario (an identifier that gets reused, say)
+			for _, st := range b.Steps[i+1:] {
+				if st.Env == "bsend" && st.Pkt != nil && st.Pkt.T == "PUBLISH" && !st.Pkt.Dup {
+					x.leftIn = append(x.leftIn, Inbound{QoS: st.Pkt.QoS, Tag: st.Pkt.Tag, Size: st.Pkt.Len})
+				}
+			}
 			break
 		}
 	}
 	if b.Random != nil {
 		x.randomRun(b.Random)
+	} else if x.diverged != "" && x.Client != nil && len(b.Steps) > 0 {
+		// The code left the behaviour.  Instead of letting everything run free at once, the explorer takes over for a
+		// while (seeded by the behaviour's name): a client that took a wrong turn still meets faults, other schedules
+		// and the publications the behaviour had not got to.
+		h := fnv([]byte(b.ID))
+		r := &Random{Seed: int64(h), Max: 150, Faults: 2, PWrite: 0.3, PDial: 0.1, PBreak: 0.1, Inbound: x.leftIn}
+		for i := range r.Inbound {
+			if r.Inbound[i].Size == 0 {
+				r.Inbound[i].Size = 8
+			}
+			r.Inbound[i].After = true
+		}
+		x.leftIn = nil
+		for _, c := range x.W.Conns() {
+			if !c.IsClosed() {
+				x.W.Broker.Pump(c)
+			}
+		}
+		x.emit(sim.Ev{"e": "takeover", "seed": int(r.Seed)})
+		x.randomRun(r)
 	}
 	if len(b.WaitFor) > 0 {
 		x.W.S.Free()
@@ -982,7 +1024,19 @@ func (x *Exec) envStep(i int, st *Step) bool {
 		x.Client = nil
 		for _, g := range sched.Stacks("pascaldekloe/mqtt.") {
 			x.baseline[goroutineID(g)] = true // blocked inside the library when the process stopped
+
 		}
+		// every goroutine that is inside the library now belongs to the stopped incarnation, also one that is on its way
+		// to its next gate: it never continues
+		x.mu.Lock()
+		if x.stale == nil {
+			x.stale = map[string]bool{}
+		}
+		for _, g := range sched.AllStacks("pascaldekloe/mqtt.") {
+			x.stale[goroutineID(g)] = true
+		}
+		x.mu.Unlock()
+		x.W.S.KillAll(nil) // (one that reached a gate in the mean time)
 		for _, c := range x.W.Conns() {
 			c.Break()
 			if x.deadConns == nil {
@@ -1142,6 +1196,21 @@ func (x *Exec) epilogue() {
 	quiet := 250 * time.Millisecond
 	if x.B.Slow > 1 {
 		quiet *= time.Duration(x.B.Slow)
+	}
+	for _, in := range x.leftIn {
+		// one after the other, each once the earlier deliveries are complete (the broker reuses identifiers then)
+		x.waitQuiet(quiet, 2*x.limit, func() bool {
+			c := x.W.Conn(len(x.W.Conns()))
+			return x.closedByScenario() || (c != nil && !c.IsClosed() && c.Established() && x.W.Broker.OutPending() == 0)
+		})
+		if c := x.W.Conn(len(x.W.Conns())); c != nil && !c.IsClosed() && c.Established() && !x.closedByScenario() {
+			size := in.Size
+			if size == 0 {
+				size = 8
+			}
+			x.emit(sim.Ev{"e": "step", "i": 0, "env": "inject", "c": c.ID()})
+			x.W.Broker.Publish(c, in.QoS, "in/t", codec.Payload(in.Tag, size), false)
+		}
 	}
 	drained := x.waitQuiet(quiet, 4*x.limit, func() bool { return x.drained() || x.closedByScenario() })
 	if !drained {
@@ -1333,6 +1402,7 @@ func (x *Exec) finish() {
 func (x *Exec) randomRun(r *Random) {
 	rng := rand.New(rand.NewSource(r.Seed))
 	x.W.AutoBroker = true
+	x.W.Broker.IDBase = r.InIDBase
 	for _, t := range r.Mute {
 		x.W.Broker.Mute[t] = true
 	}
